@@ -1210,8 +1210,8 @@ func main() {
 			}
 		}
 	}
-	// the witness of C18/Refuted.v (known finding lz4-length-prefix-unchecked) on the real code:
-	// directly, and as a compressed response body through readFrame
+	// the witness of C18/Refuted.v (fixed finding lz4-length-prefix-unchecked) on the real code: directly,
+	// and as a compressed response body through readFrame; both must be errors
 	{
 		w := []byte{0, 0, 0, 10, 0x10, 'a'}
 		dec, derr := glz4.LZ4Compressor{}.Decode(w)
@@ -1232,7 +1232,7 @@ func main() {
 		if pan == nil && err == nil {
 			declaredLengthMonitor(o, idx, kLz4, w, got)
 		}
-		o.Extra["lz4_finding_witness_reproduced"] = derr == nil && len(dec) == 1
+		o.Extra["lz4_prefix_witness_rejected"] = derr != nil && err != nil
 	}
 	for _, short := range [][]byte{{}, {0}, {0, 0}, {0, 0, 0}, {1, 2, 3}} {
 		dec, derr := glz4.LZ4Compressor{}.Decode(short)
@@ -1396,11 +1396,7 @@ func declaredLengthMonitor(o *hlib.Out, idx int, k int, wire, got []byte) {
 		}
 		nn := int(binary.BigEndian.Uint32(wire))
 		if nn != len(got) {
-			finding := ""
-			if nn > len(got) { // the trigger of lz4-length-prefix-unchecked
-				finding = "lz4-length-prefix-unchecked"
-			}
-			o.Violate(idx, "lz4-declared-length", finding, fmt.Sprintf("lz4 body % x declares %d bytes, Decode returned %d bytes without error", wire[:min(len(wire), 24)], nn, len(got)), nil)
+			o.Violate(idx, "lz4-declared-length", "", fmt.Sprintf("lz4 body % x declares %d bytes, Decode returned %d bytes without error", wire[:min(len(wire), 24)], nn, len(got)), nil)
 		}
 	case kSnappy:
 		if dl, err := snappy.DecodedLen(wire); err == nil && dl != len(got) {
@@ -1744,11 +1740,7 @@ func runConn(o *hlib.Out, r *hlib.Rng, ordinal int, maxBody int) {
 			switch {
 			case mode == 3 && advertised: // truncated compressed body: an error, not a crash, not data
 				if res.err == nil && k != kIdent {
-					finding := ""
-					if k == kLz4 && len(sentWire) >= 4 && int(binary.BigEndian.Uint32(sentWire)) > len(res.body) {
-						finding = "lz4-length-prefix-unchecked"
-					}
-					o.Violate(idx, "corrupt-body-accepted", finding, fmt.Sprintf("conn %d: truncated %s body % x accepted as %x", ordinal, kindName[k], sentWire, res.body), nil)
+					o.Violate(idx, "corrupt-body-accepted", "", fmt.Sprintf("conn %d: truncated %s body % x accepted as %x", ordinal, kindName[k], sentWire, res.body), nil)
 				}
 			case peerCompressed && !advertised: // compressed response on a connection without a compressor
 				if res.err == nil {
